@@ -1,3 +1,4 @@
+#include <typeinfo>
 // parsemc -- C11 engine: bounded exhaustive exploration of the gama-local input
 // parser (GKFparser through the real xml_parse/expat path), in-process, built
 // with ASan+UBSan.
@@ -131,6 +132,28 @@ static Outcome parse_like_main(const std::string& doc) {
 }
 static Outcome parse_whole(const std::string& doc) {
   Sess s; Outcome o; s.feed(doc.data(), (int)doc.size(), 1, o); return o;
+}
+// one line per cluster: kind, observations, covariance dimension, band, every element inside the band
+static std::string cluster_table(LocalNetwork& net, bool& dims_ok) {
+  std::ostringstream t; dims_ok = true;
+  for (auto* c : net.OD.clusters) {
+    const auto& C = c->covariance_matrix;
+    const int n = (int)c->observation_list.size(), d = (int)C.dim(), b = (int)C.bandWidth();
+    if (d != n) dims_ok = false;
+    t << typeid(*c).name() << " n=" << n << " dim=" << d << " band=" << b << " :";
+    char buf[40];
+    for (int i = 1; i <= d; i++) for (int j = i; j <= d && j <= i + b; j++) { snprintf(buf, sizeof buf, " %.17g", (double)C(i, j)); t << buf; }
+    t << "\n";
+  }
+  return t.str();
+}
+// the whole document in one call, with the parse-time covariance check on or off (library flag check_covariances)
+static Outcome parse_whole_flag(const std::string& doc, bool check, std::string& table, bool& dims_ok) {
+  Sess s; Outcome o; s.p->check_covariances(check);
+  s.feed(doc.data(), (int)doc.size(), 1, o);
+  dims_ok = true; table.clear();
+  if (o.cls == 0) table = cluster_table(*s.net, dims_ok);
+  return o;
 }
 static Outcome parse_split(const std::string& doc, size_t p) {
   Sess s; Outcome o;
@@ -633,6 +656,17 @@ static int run_mutate() {
       if (bad && base.cls == 0) V("mutate|bad-seed-accepted|" + name, "mutate:" + name + ":seed:0:0", "accepted");
       if (!base.same(whole)) V("mutate|chunking|lines-vs-whole|" + ocls(whole) + "->" + ocls(base), "mutate:" + name + ":seed:0:0", base.str() + " vs " + whole.str());
       check_outcome("seed", "mutate:" + name + ":seed:0:0", base, count_lines(doc));
+      if (!bad) {
+        // configuration dimension: GKFparser::check_covariances(false) must change nothing for a valid document,
+        // and every cluster must own a covariance matrix of its own size in both modes
+        std::string t1, t0; bool ok1 = true, ok0 = true;
+        Outcome o1 = parse_whole_flag(doc, true, t1, ok1), o0 = parse_whole_flag(doc, false, t0, ok0);
+        C("transitions", 2);
+        O(std::string("seed:nocheck-mode:") + ocls(o0));
+        if (!ok1) V("mutate|cluster-cov-dimension|check-on|" + name, "mutate:" + name + ":seed:0:0", "a cluster's covariance matrix has another dimension than its observation list:\n" + t1);
+        if (!ok0) V("mutate|cluster-cov-dimension|check-off|" + name, "mutate:" + name + ":seed:0:0", "with check_covariances(false) a cluster's covariance matrix has another dimension than its observation list:\n" + t0);
+        if (o1.cls == 0 && (o0.cls != 0 || t0 != t1)) V("mutate|check-covariances-flag-changes-result|" + name, "mutate:" + name + ":seed:0:0", "with the flag off: " + o0.str() + "\n" + t0 + "with the flag on:\n" + t1);
+      }
     }
     // every two-chunk split of the unmodified document
     for (size_t p = 1; p < n; p++) {
